@@ -45,13 +45,13 @@ func registerMoreIntrinsics() {
 			panic(targetPanic{msg: "rand.New(nil)"})
 		}
 		p, ok := src.V.(*Value)
-		if !ok || p == nil {
-			e.unsupported("rand.New with a source that is not from rand.NewSource")
+		if ok && p != nil {
+			if _, ok := (*p).(*RandState); ok {
+				return p
+			}
 		}
-		if _, ok := (*p).(*RandState); !ok {
-			e.unsupported("rand.New with a source that is not from rand.NewSource")
-		}
-		return p
+		// a harness-supplied Source: the real math/rand code runs on it
+		return notHandled
 	}
 	randState := func(e *Engine, v Value) *RandState {
 		p, ok := v.(*Value)
@@ -60,12 +60,15 @@ func registerMoreIntrinsics() {
 		}
 		st, ok := (*p).(*RandState)
 		if !ok {
-			e.unsupported("*rand.Rand not created through the rand stub")
+			return nil // a real *rand.Rand over a harness-supplied source
 		}
 		return st
 	}
 	I["(*math/rand.Rand).Intn"] = func(e *Engine, caller *frame, fn *ssa.Function, args []Value) Value {
 		st := randState(e, args[0])
+		if st == nil {
+			return notHandled
+		}
 		n := args[1].(*Term)
 		if e.decide(e.tt.SLe(n, e.tt.IntConst(0, 64))) {
 			panic(targetPanic{msg: "invalid argument to Intn"})
@@ -78,6 +81,9 @@ func registerMoreIntrinsics() {
 	}
 	I["(*math/rand.Rand).Float64"] = func(e *Engine, caller *frame, fn *ssa.Function, args []Value) Value {
 		st := randState(e, args[0])
+		if st == nil {
+			return notHandled
+		}
 		st.calls++
 		r := e.tt.App("rand.Float64", F64Sort, st.seed, e.tt.IntConst(int64(st.calls), 64))
 		e.assume(e.tt.And(e.tt.FLe(e.tt.F64Const(0), r), e.tt.FLt(r, e.tt.F64Const(1))))
@@ -86,6 +92,9 @@ func registerMoreIntrinsics() {
 	}
 	I["(*math/rand.Rand).Int63"] = func(e *Engine, caller *frame, fn *ssa.Function, args []Value) Value {
 		st := randState(e, args[0])
+		if st == nil {
+			return notHandled
+		}
 		st.calls++
 		r := e.tt.App("rand.Int63", BVSort(64), st.seed, e.tt.IntConst(int64(st.calls), 64))
 		e.assume(e.tt.SLe(e.tt.IntConst(0, 64), r))
